@@ -964,7 +964,8 @@ func (s *Server) backgroundSyncAOF(wg *sync.WaitGroup) {
 }
 
 func isReservedFieldName(field string) bool {
-	switch field {
+	// the name as it is stored (field.Make trims it)
+	switch strings.TrimSpace(field) {
 	case "z", "lat", "lon":
 		return true
 	}
